@@ -37,5 +37,6 @@ INCLUDES = {
     "C15": ["C02", "C10"],
     "C16": ["C12"],                # the deduplication scope is per thread
     "C17": ["C02", "C03", "C06", "C09", "C10"],   # a with-block in a generator body is entered and left under different tasks: registration must stay consistent (C06); generator bodies written as methods await through the binders (C09)
+    "C18": ["C02"],                # "an exception that crosses d levels of awaiting tasks reaches the caller" presupposes that it is delivered at every level
     "C19": ["C15"],                # .asyncio() of a patched function runs under the asyncio-mode flag
 }
